@@ -412,7 +412,14 @@ _c("C18",
    "characterised and refuted (F19). Real str(exception), ErrorInfo, construction and deserialization outcomes, and the outcome "
    "of every real validation chain (accepted / raise statement id / bare exception class) on an enumerated lattice leaf kind x value "
    "class x position plus random cases are compared with the model inside Coq; real field objects are compared with the schema the "
-   "chain theorems assume.",
+   "chain theorems assume. Which raise statements may reject a field only in the constructor after the deserializer's own "
+   "validation accepted it is a table of the model (Collect.ctor_only_sites: sign mix-ins, size, uniqueness, number of positional "
+   "items) against which every such observed rejection is checked, and the errors that collect-all deserialization loses (F19) are "
+   "accounted per raise site on points enumerated for every bound / sign / size / uniqueness / length kind x position. STATE: Field "
+   "INSTANCES shared between two declarations of a class (leaf kind x ordered pairs of positions: the field itself, items of "
+   "Array/Deque/Tuple/Set, Map key/value) are run through histories of operations on ONE realised class (valid; a invalid; c invalid; "
+   "a invalid; both) under construction / deserialization x fail-fast / collect-all, each rejection judged by the clauses against "
+   "one-field-at-a-time oracles on a class realised afresh.",
    "Trusted: Coq kernel + vm_compute; Render.v/Parse.v/Collect.v/Guard.v semantics hand-written (Guard.v uses the operators of "
    "Base/PyOps.v; float() of ints beyond 2^53 that do not overflow, Decimal arithmetic and opaque objects are Unmodelled and skipped); "
    "template extractor harness/genmods/templates.py (fails closed to Other) and chain translator harness/genmods/guard_progs.py "
